@@ -67,13 +67,19 @@ import (
 )
 
 const (
-	c01T0  = int64(1_700_000_000) // seconds
-	didI   = "did:nuts:issuer1"
-	didJ   = "did:web:example.com:iam:issuer2"
-	didH   = "did:web:example.com:iam:holder"
-	didO   = "did:nuts:other"
-	didD   = "did:web:example.com:iam:deact"
-	didU   = "did:web:example.com:iam:unknown"
+	c01T0 = int64(1_700_000_000) // seconds
+	didI  = "did:nuts:issuer1"
+	didJ  = "did:web:example.com:iam:issuer2"
+	didH  = "did:web:example.com:iam:holder"
+	didO  = "did:nuts:other"
+	didD  = "did:web:example.com:iam:deact"
+	didU  = "did:web:example.com:iam:unknown"
+	// look-alike DIDs: textual prefixes / extensions of the issuers' DIDs, controlled by other parties (own keys)
+	didIp  = "did:nuts:issuer"
+	didIx  = "did:nuts:issuer10"
+	didJp  = "did:web:example.com:iam:issuer"
+	didJx  = "did:web:example.com:iam:issuer20"
+	didRt  = "did:web:example.com"
 	ctxVC  = "https://www.w3.org/2018/credentials/v1"
 	ctxNut = "https://nuts.nl/credentials/v1"
 	ctxEx  = "http://example.org/credentials/V1"
@@ -1291,6 +1297,7 @@ func TestVerifC01(t *testing.T) {
 	statusScenario(t, o, rnd, "fold-after-cache", false)
 	statusScenario(t, o, rnd, "down-after-cache", false)
 	statusScenario(t, o, rnd, "down-cold", false)
+	statusScenario(t, o, rnd, "revoke-late", false)
 	sb, _ := json.Marshal(o.stats)
 	os.WriteFile(path.Join(outDir, "stats.json"), sb, 0o644)
 }
@@ -1318,6 +1325,9 @@ func newC01Nodes(t *testing.T) *c01Nodes {
 	j1, j10 := w.newKey(didJ+"#k1"), w.newKey(didJ+"#k10")
 	w.hist[didJ] = []c01Version{{From: T(-1000), Assert: [][2]string{{didJ + "#k10", j10}}},
 		{From: T(110), Assert: [][2]string{{didJ + "#k1", j1}, {didJ + "#k10", j10}}}}
+	for _, la := range []string{didIp, didIx, didJp, didJx, didRt} {
+		w.hist[la] = []c01Version{{From: T(-1000), Assert: [][2]string{{la + "#k1", w.newKey(la + "#k1")}}}}
+	}
 	h1 := w.newKey(didH + "#k1")
 	w.hist[didH] = []c01Version{{From: T(-1000), Assert: [][2]string{{didH + "#k1", h1}}}}
 	o1 := w.newKey(didO + "#k1")
@@ -2038,6 +2048,8 @@ func statusScenario(t *testing.T, o *c01Out, rnd *rand.Rand, mode string, mutate
 	}
 	// capture the all-zero list, then revoke on the issuer node
 	truth := map[string][]int{}
+	var late []func() // mode revoke-late: the revocations happen after the verifier has stored the list
+	revokedNow := mode != "revoke-late"
 	for _, c := range list {
 		cred, _ := vc.ParseVerifiableCredential(c.text)
 		sts, _ := cred.CredentialStatuses()
@@ -2055,15 +2067,23 @@ func statusScenario(t *testing.T, o *c01Out, rnd *rand.Rand, mode string, mutate
 				truth[en.StatusListCredential] = []int{}
 			}
 			if c.revoke {
-				saved := n.w.asOf
-				n.w.asOf = time.Now().UnixMilli()
-				_, err := n.iss.Revoke(n.w.ctx, *cred.ID)
-				n.w.asOf = saved
-				if err != nil {
-					t.Fatalf("status list revoke: %v", err)
-				}
+				credID, url := *cred.ID, en.StatusListCredential
 				idx, _ := strconv.Atoi(en.StatusListIndex)
-				truth[en.StatusListCredential] = append(truth[en.StatusListCredential], idx)
+				doRevoke := func() {
+					saved := n.w.asOf
+					n.w.asOf = time.Now().UnixMilli()
+					_, err := n.iss.Revoke(n.w.ctx, credID)
+					n.w.asOf = saved
+					if err != nil {
+						t.Fatalf("status list revoke: %v", err)
+					}
+					truth[url] = append(truth[url], idx)
+				}
+				if mode == "revoke-late" {
+					late = append(late, doRevoke)
+				} else {
+					doRevoke()
+				}
 			}
 		}
 	}
@@ -2118,7 +2138,7 @@ func statusScenario(t *testing.T, o *c01Out, rnd *rand.Rand, mode string, mutate
 		n.w.asOf = time.Now().UnixMilli() // the verifier checks a downloaded status list credential at the current time
 		for _, c := range list {
 			n.run(o, c01Call{kind: "vc", text: c.text, at: &okAt, allowUntrusted: false, checkSig: true, label: c.label + tag, base: c.label,
-				mut: map[bool]string{true: "status-revoked", false: tag}[c.revoke], path: tag})
+				mut: map[bool]string{true: "status-revoked", false: tag}[c.revoke && revokedNow], path: tag})
 		}
 	}
 	verifyAll("")
@@ -2128,6 +2148,34 @@ func statusScenario(t *testing.T, o *c01Out, rnd *rand.Rand, mode string, mutate
 				n.mutate(o, rnd, c01Base{label: c.label, kind: "vc", text: c.text, issued: issuedAt}, okAt, false)
 			}
 		}
+	}
+	if mode == "revoke-late" {
+		// download 1 happened above (nothing revoked yet, everything reported valid).  Now the issuer revokes, the stored copy
+		// ages past the 15 minutes, a check refreshes it (download 2) — and EVERY check from then on reports revoked:
+		// the one that triggered the refresh, the following ones that read the stored copy, and those after it aged again.
+		for _, f := range late {
+			f()
+		}
+		revokedNow = true
+		for url, revoked := range truth {
+			o.emit(map[string]any{"op": "statuslist", "url": url, "purpose": "revocation", "revoked": revoked, "available": true}, "statuslist")
+		}
+		age := func() {
+			if err := n.vdb.Exec("UPDATE status_list_credential SET created_at = created_at - 3600").Error; err != nil {
+				t.Fatal(err)
+			}
+		}
+		age()
+		before := n.http.served
+		verifyAll("@refreshed")
+		if n.http.served == before {
+			t.Fatal("status scenario: the verifier did not refresh the aged status list")
+		}
+		verifyAll("@again")
+		verifyAll("@again2")
+		age()
+		verifyAll("@aged-again")
+		verifyAll("@aged-again2")
 	}
 	if strings.HasSuffix(mode, "-after-cache") {
 		// an hour passes (the verifier refreshes status lists older than 15 minutes), then only a tampered list / nothing is served:
@@ -2355,7 +2403,7 @@ func (n *c01Nodes) multiMutate(o *c01Out, rnd *rand.Rand, b c01Base, at int64, i
 
 // resignJWT: the same claims signed again by other keys (the attacker's, the issuer's authentication-only key, a key of another version)
 func (n *c01Nodes) resignJWT(o *c01Out, b c01Base, hdr, pl map[string]any, at int64) {
-	for _, kid := range []string{didO + "#k1", didI + "#k3", didI + "#k2", didI + "#k1b"} {
+	for _, kid := range []string{didO + "#k1", didI + "#k3", didI + "#k2", didI + "#k1b", didIp + "#k1", didIx + "#k1", didJp + "#k1", didJx + "#k1", didRt + "#k1"} {
 		h := map[string]any{}
 		for k, v := range hdr {
 			if k != "kid" && k != "alg" {
@@ -2386,7 +2434,7 @@ func (n *c01Nodes) resignLD(o *c01Out, b c01Base, root map[string]any, at int64)
 			doc[k] = deepCopy(v)
 		}
 	}
-	for _, kid := range []string{didO + "#k1", didI + "#k3", didI + "#k2", didI + "#k1b", didH + "#k1"} {
+	for _, kid := range []string{didO + "#k1", didI + "#k3", didI + "#k2", didI + "#k1b", didH + "#k1", didIp + "#k1", didIx + "#k1", didJp + "#k1", didJx + "#k1", didRt + "#k1"} {
 		opts := proof.ProofOptions{Created: time.Unix(b.issued, 0).UTC()}
 		signed, err := proof.NewLDProof(opts).Sign(n.w.ctx, deepCopy(doc).(map[string]any), signature.JSONWebSignature2020{ContextLoader: n.w.loader, Signer: n.w.ks}, kid)
 		if err != nil {
